@@ -96,11 +96,23 @@ def mk_tx(i, c, parent=None):
                                    parent_or_seq_chunk_parent=parent, **kw)
 
 
-def mk_feat(i, c):
+def mk_feat(i, c, parent=None):
     L = lib()
     return L["FeatureInterval"]([s for s, _ in c["blocks"]], [e for _, e in c["blocks"]], _strand(c["strand"]),
                                 feature_types=list(c["types"]) or None, is_primary_feature=c["primary"],
-                                guid=UUID(int=1000 + i))
+                                guid=UUID(int=1000 + i), parent_or_seq_chunk_parent=parent)
+
+
+def _chunk_parent(lo, hi, strand):
+    """a sequence chunk [lo, hi) of the chromosome, on either strand of it"""
+    L = lib()
+    from inscripta.biocantor.util.object_validation import ObjectValidation  # noqa: F401  (import order)
+    from inscripta.biocantor.io.parser import seq_chunk_to_parent
+    piece = SEQ[lo:hi]
+    st = _strand(strand)
+    if st == L["Strand"].MINUS:
+        piece = str(L["Sequence"](piece, L["Alphabet"].NT_STRICT).reverse_complement())
+    return seq_chunk_to_parent(piece, "chr", lo, hi, strand=st, alphabet=L["Alphabet"].NT_STRICT)
 
 
 def _idx(seq, obj):
@@ -146,6 +158,22 @@ def impl_agg_op(line):
             cds = g.get_primary_cds()
             pc = "None" if cds is None else enc_blocks(_loc_blocks(cds.chromosome_location))
             return f"ok {g.start} {g.end} {1 if g.is_coding else 0} {p} {pc}"
+        if op == "genek":
+            parent = _chunk_parent(int(t.next()), int(t.next()), t.next())
+            g = _gene(t.children(), parent=parent)
+            p = _idx(g.transcripts, g.get_primary_transcript())
+            assert g.get_primary_feature() is g.get_primary_transcript()
+            cds = g.get_primary_cds()
+            pc = "None" if cds is None else enc_blocks(_loc_blocks(cds.chromosome_location))
+            return f"ok {g.start} {g.end} {1 if g.is_coding else 0} {p} {pc}"
+        if op == "fcollk":
+            parent = _chunk_parent(int(t.next()), int(t.next()), t.next())
+            cs = t.children()
+            fc = L["FeatureIntervalCollection"]([mk_feat(i, c, parent) for i, c in enumerate(cs)],
+                                                feature_collection_id="fc", parent_or_seq_chunk_parent=parent)
+            p = _idx(fc.feature_intervals, fc.get_primary_feature())
+            ts = sorted(fc.feature_types)
+            return f"ok {fc.start} {fc.end} {p} " + " ".join([str(len(ts))] + [enc(x) for x in ts])
         if op in ("gmt", "gmc"):
             ht = t.next() == "1"
             g = _gene(t.children(), gene_type=ht)
